@@ -81,7 +81,12 @@ class Sched:
 
     def step(self, name):
         self.sem[name].release()
-        self.main.acquire()
+        if not self.main.acquire(timeout=float(os.environ.get("VERIF_K3_STEP_LIMIT", "25"))):
+            raise RealBlock(name)
+
+
+class RealBlock(Exception):
+    """A scheduled thread neither parked nor finished: it blocks on something the scheduler does not manage (a real lock) or hangs."""
 
 
 class PLock:
@@ -179,7 +184,12 @@ def run_schedule(setup, prefix, gran):
         enabled_sets.append(en)
         choices.append(pick)
         last = pick
-        s.step(pick)
+        try:
+            s.step(pick)
+        except RealBlock:
+            outcome = ("DEADLOCK", {"thread": pick, "detail": "did not reach the next scheduling point within the step limit: blocked on a lock "
+                                                             "outside the scheduler's control, or hung", "fatal": True})
+            break
         steps += 1
         if steps > 200000:
             outcome = ("LIVELOCK", {})
@@ -312,7 +322,7 @@ def child(spec):
     ns = import_library()
     cj = ns.cj
     cls = getattr(cj, spec["cls"])
-    install([cls])
+    install(list(ns.json_classes))      # nested children may be of another class than the root: their locks are scheduled too
     d = tempfile.mkdtemp(prefix="verif_k3_")
     files = [os.path.join(d, f"f{i}.json") for i in range(2)]
     kind = "list" if spec["cls"].endswith("List") else "dict"
@@ -344,10 +354,8 @@ def child(spec):
             with open(f, "w") as fh:
                 json.dump(init, fh)
         if hasattr(cls, "_buffer"):
-            cls._buffer.clear(); cls._buffered_collections.clear(); cls._CURRENT_BUFFER_SIZE = 0
-            cls._BUFFER_CAPACITY = default_cap
-            cls._buffer_context._count = 0; cls._buffer_context._original_buffer_capacitys.clear()
-        install([cls])
+            reset_buffer_class(cls, default_cap)
+        install(list(ns.json_classes))
         objs = {}
         for t in threads:
             if t.get("construct"):
@@ -552,6 +560,15 @@ def scenarios_c13(tier):
                             "threads": [thread_spec("T1", a, "o1"), thread_spec("T2", b, "o1", path=p2)]})
             out.append({"name": f"C13:{cls_l}:cap={cap}:append_c|append:same-object nested value", "cls": cls_l, "buffered": True, "cap": cap, "limit": 400,
                         "threads": [thread_spec("T1", "append_c", "o1"), thread_spec("T2", "append", "o1")]})
+            # a nested child of ANOTHER type than its root (a list inside a dict) next to a writer on the root: the child must
+            # take its root's locks, not those of its own class
+            out.append({"name": f"C13:{cls_d}:cap={cap}:append through a nested list|set_x on the root", "cls": cls_d, "buffered": True, "cap": cap,
+                        "limit": 400, "init_extra": True,
+                        "threads": [dict(thread_spec("T1", "append", "o1", path=("l",))), thread_spec("T2", "set_x", "o1")]})
+            # check-then-act inside one mutator: both threads setdefault the same missing key
+            for layout, o2 in (("same-object", "o1"), ("same-file", "o2")):
+                out.append({"name": f"C13:{cls_d}:cap={cap}:setdefault|setdefault2:{layout}", "cls": cls_d, "buffered": True, "cap": cap, "limit": 400,
+                            "threads": [thread_spec("T1", "setdefault", "o1"), thread_spec("T2", "setdefault2", o2)]})
             # a reader on a private object whose load overfills the buffer evicts (force-flushes) ANOTHER file that a writer
             # thread has modified in the buffer and keeps modifying
             if cap and not cls_d.startswith("Memory"):
@@ -580,6 +597,11 @@ def scenarios_c14(tier):
     for cls, buffered in (("BufferedJSONDict", True), ("JSONDict", False), ("MemoryBufferedJSONDict", True)):
         out.append({"name": f"C14:{cls}:r_get_d|set_x,set_y:two-objects", "cls": cls, "buffered": buffered, "limit": 400,
                     "threads": [thread_spec("R", "r_get_d", "o1", read=True), thread_spec("W1", "set_x", "o2"), thread_spec("W2", "set_y", "o2")]})
+    # a reader that OPENS ITS OWN OBJECT on the file (constructor inside the thread) while two writers on two other objects
+    # are at work: constructing must not disturb the file's lock
+    for r in (["r_get_d", "r_call_d"] if tier != "quick" else ["r_get_d"]):
+        out.append({"name": f"C14:JSONDict:constructing reader {r}|set_x|set_y", "cls": "JSONDict", "limit": 700 if tier == "quick" else 2500,
+                    "threads": [dict(thread_spec("R", r, "own", read=True), construct=True), thread_spec("W1", "set_x", "o1"), thread_spec("W2", "set_y", "o2")]})
     for r in (["r_call_l", "r_get_l", "r_len_l"] if tier != "quick" else ["r_call_l"]):
         for w in (["append", "lpop", "reverse", "clear_l"] if tier != "quick" else ["append", "lpop"]):
             out.append({"name": f"C14:JSONList:{r}|{w}:two-objects", "cls": "JSONList",
